@@ -92,6 +92,26 @@ class Worker(threading.Thread):
         self.stopped.set()
 
 
+def _wait_step(w: "Worker") -> bool:
+    """Wait until the worker reaches its next stop point, or is seen blocked on tawazi's description lock
+    (its innermost Python frame is the lock acquisition in threadsafe_make_dag), or STEP_WAIT has passed."""
+    import sys
+
+    end = time.monotonic() + STEP_WAIT
+    seen_blocked = 0
+    while time.monotonic() < end:
+        if w.stopped.wait(0.003):
+            return True
+        fr = sys._current_frames().get(w.ident)
+        if fr is not None and fr.f_code.co_name == "threadsafe_make_dag":
+            seen_blocked += 1
+            if seen_blocked >= 3:  # three consecutive samples: it is waiting for the lock, not passing by
+                return False
+        else:
+            seen_blocked = 0
+    return w.stopped.is_set()
+
+
 def _script(case: Dict[str, Any], res: CaseResult) -> None:
     import tawazi
     from tawazi.consts import XNOutsideDAGCall
@@ -136,7 +156,7 @@ def _script(case: Dict[str, Any], res: CaseResult) -> None:
             w.stopped.clear()
             started[w.idx] = True
             w.go.release()
-            reached = w.stopped.wait(STEP_WAIT)
+            reached = _wait_step(w)
             if others_paused and reached and nxt < len(w.ops) and w.ops[nxt]["op"] in ("call", "outside", "reconf"):
                 during_pause += 1
         # drain: release everything until all threads are done
@@ -257,8 +277,8 @@ def cases(draw: Any, tier: str) -> Dict[str, Any]:
                                 n_setup=draw(st.integers(0, 1)), name="S"))
     # make sure the argument matters
     shared["body"][-1]["args"].append(["p", "p0"])
-    if draw(st.sampled_from([True] + [False] * 5)):
-        return {"family": "stress", "shared": shared, "n_threads": 8, "n_calls": draw(st.integers(20, 60)), "mc": draw(st.integers(1, 3))}
+    if draw(st.sampled_from([True] + [False] * 9)):
+        return {"family": "stress", "shared": shared, "n_threads": 8, "n_calls": draw(st.integers(10, 40)), "mc": draw(st.integers(1, 3))}
     nthreads = draw(st.integers(2, 3))
     private = draw(gen.flat_prog(min_sites=2, max_sites=4, max_deps=2, resources=("thread", "main-thread"),
                                  dep_kinds=("pos", "kw"), name="PV", prio_range=(0, 2)))
